@@ -7,17 +7,22 @@ BASELINE = "cd /repo && /venv/bin/python -m pytest -ra -q -p no:cacheprovider --
 
 CLAIMED = {
     "C09": dict(
-        text="Lean 4 theorems about the translator-generated block loop nests (gather/scatter membership, "
-             "scatter = transpose of gather, num_blks maximality) and shape/shift formulas of util.resize and "
-             "Down/Upsample, plus index-map theorems (centre alignment for every pad/crop mix, roll inverse, "
-             "up/down-sample index round trip). Tie: Gen/*.lean regenerated from sigpy/block.py, util.py, linop.py "
-             "on every run + exact integer correspondence of the executable model with the real functions and Linops.",
-        note="Trusted: Lean kernel; translator harness/translate (Python ast subset -> Lean); numpy slicing/roll "
-             "semantics written by hand in Model/C09.lean (validated by the exact correspondence stream); numba "
-             "compiles the kernels as Python would run them. 2-D/3-D block nests are tied by correspondence and "
-             "membership theorems are proved for the 1-D nest (2-D/3-D: see DESIGN §3 C09).",
+        text="Lean 4 theorems about the translator-generated block loop nests (gather/scatter membership in 1-3 D, scatter = transpose "
+             "of gather, every gather destination written at most once so '=' and '+=' coincide, the number of '+=' updates landing "
+             "on an array element = product over axes of the (block, offset) counts, uncovered indices receive none, num_blks "
+             "maximality) and the generated shape/shift formulas of util.resize and Down/Upsample, plus array-level specifications "
+             "of the model functions the driver runs, in N dimensions: resize_array_spec (input element j lands at output position k "
+             "exactly when j_d - i_d//2 = k_d - o_d//2 on every axis with default shifts - every pad/crop mix - zero elsewhere; "
+             "explicit shifts; transposition), flip (involution), circshift (sequential rolls = per-axis roll by the summed shift: "
+             "repeated axes add, order irrelevant, inverse by negated shifts), downsample / upsample (slice s::f; "
+             "downsample*upsample = id, upsample*downsample = mask). Tie: Gen/*.lean regenerated from sigpy/block.py, util.py, "
+             "linop.py on every run + exact integer correspondence of the executable model with the real functions and Linops "
+             "(incl. a stream of multi-axis circshifts with unsorted / negative / repeated axes).",
+        note="Trusted: Lean kernel; translator harness/translate (Python ast subset -> Lean); that the model's numpy slicing / roll / "
+             "reshape / _expand_shapes semantics is numpy's is validated by the exact correspondence streams, not proved; numba "
+             "compiles the kernels as Python would run them; IEEE plays no role (integer data).",
         technique="Lean 4 proof over translator-generated model + exact differential correspondence",
-        design="DESIGN.md §3 C09"),
+        design="DESIGN.md §3 C09, §9"),
     "C05": dict(
         text="Lean 4 theorems: the fft/ifft pipelines extracted from sigpy/fourier.py by the translator (resize -> ifftshift -> "
              "(i)fftn(norm) -> fftshift; uncentred = bare transform; axis normalisation a % ndim; dtype rule) have DFT exponent "
@@ -88,13 +93,23 @@ CLAIMED = {
         design="DESIGN.md §3 C01, §9"),
     "C04": dict(
         text="Lean 4 theorems: normal_eq_default/normal_default (operators without an override get A.N = A.H*A acting as x -> "
-             "A.H(A x)), normal_gram (<A.N x, z> = <A x, A z>), circshift_normal_axis (shortcut Identity is right: roll inverse), "
-             "b2a1_a2b1_cover ((A^H A x)[b,i] = cover(i) x[b,i] for the generated 1-D block nests), cover_tiling / cover_overlap / "
-             "cover_gap, blocks_identity_wrong_witness (N=5,B=2,S=1: Identity would be wrong - the defect that was repaired). "
+             "A.H(A x)), normal_gram (<A.N x, z> = <A x, A z>); shortcut_normal_is_identity_{identity,reshape,transpose,circshift} "
+             "(entry level of the model: denote(adj e) composed with denote e returns x on the whole index range, for every axes "
+             "permutation incl. negative axes / axes=None and every shift / axes list - the gather is a bijection of the index set, "
+             "P^H P = I - so the Identity(ishape) override agrees with A^H A); normal_denote_leaves (for every Compose / Add / Conj / "
+             "Hstack / Vstack / Diag tree over the C01.LeafProved classes, A.N - override at the top node or default rule - acts as "
+             "x -> A^H(A x) with A^H the true adjoint: (A.N x)[j] = <A e_j, A x>); blocks, about the regenerated loop nests "
+             "Gen.a2b{1,2,3} / Gen.b2a{1,2,3}: b2a1_a2b1_cover, b2a2_a2b2_cover, b2a3_a2b3_cover ((A^H A x)[b,i] = prod_axes cover(i_axis) "
+             "x[b,i]), cover_tiling / cover_overlap / cover_gap, cover_one_iff_tiling (with num_blks from ArrayToBlocks.__init__: cover = 1 "
+             "on all of 0..L-1 iff (S = B and B | L) or B = L), cover_le_one_iff and b2a_normal_identity_iff (BlocksToArray.N = A A^H "
+             "is the identity on block arrays iff B <= S or a single block), witnesses blocks_identity_wrong_witness (L=5,B=2,S=1), "
+             "blocks2_identity_wrong_witness, cover_nondividing_witness (L=5,B=S=2: stride == block is not enough). "
              "Tie: exact comparison of the implementation's A.N matrix with the model's normal e for all leaf classes and random "
-             "trees; FFT/IFFT shortcut is C05's dftMatrix_unitary.",
-        note="Trusted: as C01. Not proved: reverse direction of cover = 1 iff tiling, 2-D/3-D cover theorems, BlocksToArray.N "
-             "characterisation, flat-index P^H P = I for Reshape/Transpose (validated by correspondence). Toeplitz NUFFT normal is "
+             "trees; real A.H(A(1)) and A.N(1) of ArrayToBlocks in 1-3 D vs the per-axis cover counts printed by the Lean driver "
+             "(C04.coverAxis); FFT/IFFT shortcut is C05's dftMatrix_unitary.",
+        note="Trusted: as C01 (MatMul / RightMatMul leaf pairing validated only, so trees containing them are outside "
+             "normal_denote_leaves). Side conditions of the shortcut theorems: non-negative extents. b2a_normal_identity_iff is proved "
+             "for the 1-D loop nests (2-D / 3-D: cover level per axis + search oracle). Toeplitz NUFFT normal is "
              "decided by the search oracle only (relative l2 error <= 6% at defaults, 0.6% at oversamp 2 = twice the C06 bound).",
         technique="Lean 4 proof (normal = adjoint composed with operator; block cover counts) + exact differential correspondence",
         design="DESIGN.md §3 C04, §9"),
@@ -227,7 +242,9 @@ CLAIMED = {
              "IR programs the translator regenerates every run from every Linop._apply / Linop.apply / Prox._prox / Prox.__call__ and "
              "the public functions of util, fourier, interp, conv, block, wavelet, thresh, mri.util and their helpers "
              "(Gen/Effects.lean, Gen/EffectsOk.lean), with summ_f_eq tying call-site summaries to callee analyses; denote_linear "
-             "(any entry-list map is additive and homogeneous), conj_sandwich_linear / conj_half_antilinear (Conj is C-linear; "
+             "(any entry-list map is additive and homogeneous), tree_linear (by structural induction over the C01 expression "
+             "language - 19 leaf classes + Compose/Add/Conj/Hstack/Vstack/Diag - every tree satisfies A(a x + y) = a A x + A y over "
+             "any commutative star ring incl. C with complex a), tree_history_deterministic, conj_sandwich_linear / conj_half_antilinear (Conj is C-linear; "
              "dropping one conjugate is not); history_determinism (an _apply that reads only constructor parameters and writes nothing "
              "gives, in every interleaving of apply/.H/.N, the output a fresh object gives). Tie: translator every run + runtime "
              "stream on the real code validating the numpy view/copy table (byte snapshots of all arguments and captured arrays, "
